@@ -647,9 +647,21 @@ def run_c10(chk):
                 d._verif_routes = True
 
             def exp_redir(n):
-                return [1, '303 See Other', sorted([['Content-Length', '0'], ['Content-Type', 'text/html; charset=UTF-8'],
-                                                    ['Location', 'http://host-%s.example/next/%s' % (n, n)],
-                                                    ['Set-Cookie', 'own=%s' % n], ['X-Own', n]]), '']
+                # stated outright: one start_response, a redirect to the handler's target carrying the handler's own header and
+                # cookie and nothing of anybody else's; and, for everything incidental (Content-Length, default Content-Type),
+                # equal to what a fresh application answers in an interpreter that has served nothing else
+                ref = L.solo_fresh_interpreter('redir', n)
+
+                def judge_(got):
+                    if not (isinstance(got, list) and len(got) == 4 and got[0] == 1 and str(got[1])[:3] in ('302', '303')):
+                        return False
+                    hs = [tuple(h) for h in got[2]]
+                    names = {h[0].lower() for h in hs}
+                    return (('Location', 'http://host-%s.example/next/%s' % (n, n)) in hs and ('X-Own', n) in hs
+                            and any(h[0] == 'Set-Cookie' and h[1].startswith('own=%s' % n) for h in hs)
+                            and sum(1 for h in hs if h[0] == 'Set-Cookie') == 1
+                            and names <= {'location', 'x-own', 'set-cookie', 'content-length', 'content-type'} and got == ref)
+                return judge_
             e_d = solo('hdrs', 'D1')
             seq = [(lambda: L.serve(a, L.environ_for('redir', 'R0'))), (lambda: L.serve(d, L.environ_for('hdrs', 'D1'))),
                    (lambda: L.serve(a, L.environ_for('redir', 'R1'))), (lambda: L.serve(d, L.environ_for('nf', 'D2'))),
@@ -698,7 +710,7 @@ def run_c10(chk):
         res, tr, taken = L.run_threads(apps, reqs, sched, acc if acc.ok else None)
         ok = []
         if arr in ('alternate', 'create_between', 'listener', 'status_table', 'shared_environ', 'custom_errors_map', 'custom404', 'module_helpers'):
-            ok = [expect[i] is None or res[0][i] == expect[i] for i in range(len(expect))]
+            ok = [expect[i] is None or (expect[i](res[0][i]) if callable(expect[i]) else res[0][i] == expect[i]) for i in range(len(expect))]
         elif arr == 'lazy_drain':
             got_a, got_mid = res[0][0]
             ok = [got_a == solo(run_arr.lz_kind, 'LZ'), got_mid == solo('plain', 'MID')]
